@@ -1,0 +1,18 @@
+//go:build verif
+
+package vm
+
+import "github.com/paulsonkoly/calc/memory"
+
+// Verification hooks, compiled in with the verif build tag only.
+
+const verifEnabled = true
+
+// VerifStep, when set, is called before every instruction is dispatched.
+var VerifStep func()
+
+// VerifMain exposes the state of the main context: its instruction pointer,
+// the number of child (iterator) contexts registered with it and its memory.
+func (vm *Type) VerifMain() (ip int, liveContexts int, m *memory.Type) {
+	return vm.main.ip, vm.main.children.Len(), vm.main.m
+}
